@@ -290,6 +290,34 @@ Proof.
   specialize (H x (or_introl eq_refl)). destruct x; try exact I. contradiction.
 Qed.
 
+Lemma sv_and_ops_head : forall a, exists p xs, sv_and_ops a = sv_pt p :: xs.
+Proof.
+  induction a as [p|l IH r]; cbn [sv_and_ops].
+  - exists p, []. reflexivity.
+  - destruct IH as [p [xs E]]. rewrite E. exists p, (xs ++ [sv_pt r]). reflexivity.
+Qed.
+Lemma sv_or_ops_head : forall o, exists a xs, sv_or_ops o = sv_and a :: xs.
+Proof.
+  induction o as [a|l IH r]; cbn [sv_or_ops].
+  - exists a, []. reflexivity.
+  - destruct IH as [a [xs E]]. rewrite E. exists a, (xs ++ [sv_and r]). reflexivity.
+Qed.
+
+Lemma sv_pt_shape_of : forall b p, not_boolop_of b (ma (sv_pt p)).
+Proof. intros b p. pose proof (sv_pt_meaning_shape p). destruct (ma (sv_pt p)); try exact I. contradiction. Qed.
+
+Lemma sv_and_shape_of : forall a, not_boolop_of false (ma (sv_and a)).
+Proof.
+  destruct a as [p|l r].
+  - apply sv_pt_shape_of.
+  - rewrite sv_and_CAnd. cbn [ma]. discriminate.
+Qed.
+
+Lemma and_ops_shape : forall a, match sv_and_ops a with x :: _ => not_boolop_of true (ma x) | [] => True end.
+Proof. intros a. destruct (sv_and_ops_head a) as [p [xs E]]. rewrite E. apply sv_pt_shape_of. Qed.
+Lemma or_ops_shape : forall o, match sv_or_ops o with x :: _ => not_boolop_of false (ma x) | [] => True end.
+Proof. intros o. destruct (sv_or_ops_head o) as [a [xs E]]. rewrite E. apply sv_and_shape_of. Qed.
+
 Lemma order_op_meaning : forall op, ma_op (order_cls op) = fun _ => m_order_op op.
 Proof. intros op. unfold order_cls, m_order_op. destruct (tk op); reflexivity. Qed.
 
@@ -323,23 +351,7 @@ Proof.
     assert (O : ma_op (strop_cls o) (sv_lit s) = m_strop o) by (destruct o; reflexivity).
     rewrite O. reflexivity.
   - intros e IH Hw Hs. cbn [wf_pt sem_pt] in Hw, Hs. cbn [sv_pt ma mc_pt]. f_equal.
-    rewrite ma_mk1.
-    + rewrite (IH Hw Hs). reflexivity.
-    + destruct e as [a|l r]; cbn [sv_or_ops].
-      * (* first operand is an AND chain or a single test *)
-        destruct a as [p|l' r'].
-        -- cbn [sv_and_ops mk1]. pose proof (sv_pt_meaning_shape p). destruct (ma (sv_pt p)); try exact I. contradiction.
-        -- fold (sv_and (CAnd l' r')). rewrite sv_and_CAnd. cbn [ma]. discriminate.
-      * destruct (sv_or_ops l) as [|x xs] eqn:E; [exact I|].
-        cbn [app].
-        (* x is the first operand of l, again an AND chain or a single test *)
-        clear IH Hw Hs. revert x xs E. induction l as [a|l' IHl r']; intros x xs E.
-        -- cbn [sv_or_ops] in E. inversion E; subst. destruct a as [p|l'' r''].
-           ++ cbn [sv_and_ops mk1]. pose proof (sv_pt_meaning_shape p). destruct (ma (sv_pt p)); try exact I. contradiction.
-           ++ fold (sv_and (CAnd l'' r'')). rewrite sv_and_CAnd. cbn [ma]. discriminate.
-        -- cbn [sv_or_ops] in E. destruct (sv_or_ops l') as [|x' xs'] eqn:E'.
-           ++ exfalso. exact (sv_or_ops_nonnil l' E').
-           ++ cbn [app] in E. inversion E; subst. exact (IHl x xs' eq_refl).
+    rewrite (ma_mk1 false (sv_or_ops e) (or_ops_shape e)), (IH Hw Hs). reflexivity.
   - intros nt p Hw Hs. discriminate Hs.
   - intros p IH Hw Hs. cbn [wf_and sem_and] in Hw, Hs. cbn [sv_and_ops map mc_and_list]. rewrite (IH Hw Hs). reflexivity.
   - intros l IHl r IHr Hw Hs. cbn [wf_and sem_and] in Hw, Hs.
@@ -347,25 +359,150 @@ Proof.
     apply andb_true_iff in Hs. destruct Hs as [Hs _]. apply andb_true_iff in Hs. destruct Hs as [Hsl Hsr].
     cbn [sv_and_ops mc_and_list]. rewrite map_app, (IHl Hwl Hsl). cbn [map]. rewrite (IHr Hwr Hsr). reflexivity.
   - intros a IH Hw Hs. cbn [wf_or sem_or] in Hw, Hs. cbn [sv_or_ops map mc_or_list]. f_equal.
-    rewrite ma_mk1; [rewrite (IH Hw Hs); reflexivity|].
-    destruct a as [p|l r]; cbn [sv_and_ops].
-    + pose proof (sv_pt_meaning_shape p). destruct (ma (sv_pt p)); try exact I. contradiction.
-    + destruct (sv_and_ops l) as [|x xs] eqn:E; [exact I|]. cbn [app].
-      clear IH Hw Hs. revert x xs E. induction l as [p|l' IHl r']; intros x xs E.
-      * cbn [sv_and_ops] in E. inversion E; subst. pose proof (sv_pt_meaning_shape p). destruct (ma (sv_pt p)); try exact I. contradiction.
-      * cbn [sv_and_ops] in E. destruct (sv_and_ops l') as [|x' xs'] eqn:E'.
-        -- exfalso. exact (sv_and_ops_nonnil l' E').
-        -- cbn [app] in E. inversion E; subst. exact (IHl x xs' eq_refl).
+    rewrite (ma_mk1 true (sv_and_ops a) (and_ops_shape a)), (IH Hw Hs). reflexivity.
   - intros l IHl r IHr Hw Hs. cbn [wf_or sem_or] in Hw, Hs.
     apply andb_true_iff in Hw. destruct Hw as [Hwl Hwr]. apply andb_true_iff in Hs. destruct Hs as [Hsl Hsr].
     cbn [sv_or_ops mc_or_list]. rewrite map_app, (IHl Hwl Hsl). cbn [map]. f_equal. f_equal.
-    rewrite ma_mk1; [rewrite (IHr Hwr Hsr); reflexivity|].
-    destruct r as [p|l' r']; cbn [sv_and_ops].
-    + pose proof (sv_pt_meaning_shape p). destruct (ma (sv_pt p)); try exact I. contradiction.
-    + destruct (sv_and_ops l') as [|x xs] eqn:E; [exact I|]. cbn [app].
-      clear IHl IHr Hwl Hwr Hsl Hsr. revert x xs E. induction l' as [p|l'' IHl r'']; intros x xs E.
-      * cbn [sv_and_ops] in E. inversion E; subst. pose proof (sv_pt_meaning_shape p). destruct (ma (sv_pt p)); try exact I. contradiction.
-      * cbn [sv_and_ops] in E. destruct (sv_and_ops l'') as [|x' xs'] eqn:E'.
-        -- exfalso. exact (sv_and_ops_nonnil l'' E').
-        -- cbn [app] in E. inversion E; subst. exact (IHl x xs' eq_refl).
+    rewrite (ma_mk1 true (sv_and_ops r) (and_ops_shape r)), (IHr Hwr Hsr). reflexivity.
+Qed.
+
+Lemma or_meaning : forall e, wf_or e = true -> sem_or e = true -> ma (sv_or e) = mc_or e.
+Proof.
+  intros e Hw Hs. unfold sv_or, mc_or.
+  rewrite (ma_mk1 false (sv_or_ops e) (or_ops_shape e)), (proj2 (proj2 cmp_meaning) e Hw Hs). reflexivity.
+Qed.
+
+(* ------------------------------------------------------------------ *)
+(** * Observation expressions *)
+
+Lemma qual_meaning : forall q, wf_qual q = true -> sem_qual q = true -> ma_qual (sv_qual q) = mc_qual q.
+Proof.
+  intros [a b|n|n] Hw Hs; cbn [wf_qual sem_qual] in Hw, Hs; cbn [sv_qual ma_qual mc_qual].
+  - apply andb_true_iff in Hw, Hs. destruct Hw as [Ha Hb]. destruct Hs as [Sa Sb].
+    rewrite (lit_meaning a (ts_primitive a Ha) Sa), (lit_meaning b (ts_primitive b Hb) Sb). reflexivity.
+  - assert (S : lit_sem n = true).
+    { unfold kind_in in Hw. apply andb_true_iff in Hw. destruct Hw as [H1 _]. destruct n as [k s]. cbn [tk] in H1.
+      destruct k; cbn in H1; try discriminate; reflexivity. }
+    rewrite (lit_meaning n (within_primitive n Hw) S). reflexivity.
+  - assert (S : lit_sem n = true).
+    { destruct (kind_single _ _ Hw) as [Hk _]. apply lit_sem_other; rewrite Hk; discriminate. }
+    rewrite (lit_meaning n (intpos_primitive n Hw) S). reflexivity.
+Qed.
+
+Definition obsop_eqb (a b : obsop) : bool :=
+  match a, b with OpAnd, OpAnd | OpOr, OpOr | OpFb, OpFb => true | _, _ => false end.
+Definition not_obsop_of (op : obsop) (m : mexpr) : Prop :=
+  match m with MObsOp o _ => obsop_eqb o op = false | _ => True end.
+
+(* ECompound op [x; y] reads as the chain it prints to *)
+Lemma ma_compound2 : forall op x y,
+  ma (ECompound op [x; y]) =
+  MObsOp op (match ma x with
+             | MObsOp o xs => if obsop_eqb o op then xs ++ [ma y] else [ma x; ma y]
+             | _ => [ma x; ma y]
+             end).
+Proof.
+  intros op x y. cbn [ma map splice_first]. destruct (ma x); try reflexivity.
+  destruct op0, op; reflexivity.
+Qed.
+
+Lemma chain_step : forall op l (mr : mexpr) x y,
+  l <> [] -> (forall z, In z l -> not_obsop_of op z) ->
+  ma x = one_or (MObsOp op) l -> ma y = mr ->
+  ma (ECompound op [x; y]) = one_or (MObsOp op) (l ++ [mr]).
+Proof.
+  intros op l mr x y Hl Hn Hx Hy. rewrite ma_compound2, Hx, Hy.
+  destruct l as [|a [|b l']]; [congruence| |].
+  - cbn [one_or app]. specialize (Hn a (or_introl eq_refl)).
+    destruct a; try reflexivity. cbn in Hn. rewrite Hn. reflexivity.
+  - cbn [one_or]. assert (E : obsop_eqb op op = true) by (destruct op; reflexivity). rewrite E.
+    destruct l'; reflexivity.
+Qed.
+
+Lemma in_snoc : forall (A : Type) (l : list A) (x z : A), In z (l ++ [x]) -> In z l \/ z = x.
+Proof. intros A l x z H. apply in_app_or in H. destruct H as [H|[H|[]]]; [left; exact H|right; symmetry; exact H]. Qed.
+
+Lemma one_or_shape : forall op op' l, obsop_eqb op op' = false ->
+  (forall z, In z l -> not_obsop_of op' z) -> not_obsop_of op' (one_or (MObsOp op) l).
+Proof.
+  intros op op' l Hne H. destruct l as [|a [|b r]]; cbn [one_or not_obsop_of]; try exact Hne.
+  apply H. left. reflexivity.
+Qed.
+
+Lemma obs_meaning :
+  (forall o, wf_obs o = true -> sem_obs o = true ->
+     ma (sv_obs o) = mc_obs o /\ (forall op, not_obsop_of op (mc_obs o))) /\
+  (forall a, wf_oand a = true -> sem_oand a = true ->
+     ma (sv_oand a) = one_or (MObsOp OpAnd) (mc_oand_list a) /\ mc_oand_list a <> [] /\
+     (forall z, In z (mc_oand_list a) -> forall op, not_obsop_of op z)) /\
+  (forall a, wf_oor a = true -> sem_oor a = true ->
+     ma (sv_oor a) = one_or (MObsOp OpOr) (mc_oor_list a) /\ mc_oor_list a <> [] /\
+     (forall z, In z (mc_oor_list a) -> not_obsop_of OpOr z /\ not_obsop_of OpFb z)) /\
+  (forall a, wf_fb a = true -> sem_fb a = true ->
+     ma (sv_fb a) = one_or (MObsOp OpFb) (mc_fb_list a) /\ mc_fb_list a <> [] /\
+     (forall z, In z (mc_fb_list a) -> not_obsop_of OpFb z)).
+Proof.
+  apply obs_mutind.
+  - (* [ comparison expression ] *)
+    intros e Hw Hs. cbn [wf_obs sem_obs] in Hw, Hs. split; [|intros op; exact I].
+    cbn [sv_obs mc_obs]. rewrite <- (or_meaning e Hw Hs).
+    unfold sv_or. destruct (sv_or_ops_head e) as [a [xs E]]. rewrite E.
+    destruct xs as [|y ys].
+    + cbn [mk1]. destruct a as [p|l r].
+      * unfold sv_and. cbn [sv_and_ops mk1]. destruct p; reflexivity.
+      * rewrite sv_and_CAnd. reflexivity.
+    + reflexivity.
+  - (* ( observation expressions ) *)
+    intros e IH Hw Hs. cbn [wf_obs sem_obs] in Hw, Hs. destruct (IH Hw Hs) as [E _].
+    split; [|intros op; exact I]. cbn [sv_obs mc_obs ma]. rewrite E. reflexivity.
+  - (* qualified *)
+    intros o IH q Hw Hs. cbn [wf_obs sem_obs] in Hw, Hs.
+    apply andb_true_iff in Hw, Hs. destruct Hw as [Hwo Hwq]. destruct Hs as [Hso Hsq].
+    destruct (IH Hwo Hso) as [E _]. split; [|intros op; exact I].
+    cbn [sv_obs mc_obs ma]. rewrite E, (qual_meaning q Hwq Hsq). reflexivity.
+  - (* AND level *)
+    intros o IH Hw Hs. cbn [wf_oand sem_oand] in Hw, Hs. destruct (IH Hw Hs) as [E N].
+    cbn [sv_oand mc_oand_list one_or]. split; [exact E|]. split; [discriminate|].
+    intros z [Hz|[]] op. subst z. apply N.
+  - intros l IHl r IHr Hw Hs. cbn [wf_oand sem_oand] in Hw, Hs.
+    apply andb_true_iff in Hw, Hs. destruct Hw as [Hwl Hwr]. destruct Hs as [Hsl Hsr].
+    destruct (IHl Hwl Hsl) as [El [Nl Sl]]. destruct (IHr Hwr Hsr) as [Er Nr].
+    cbn [sv_oand mc_oand_list]. split; [|split].
+    + apply (chain_step OpAnd (mc_oand_list l) (mc_obs r)); try assumption. intros z Hz. apply Sl. exact Hz.
+    + intros H. apply app_eq_nil in H. destruct H; discriminate.
+    + intros z Hz op. apply in_snoc in Hz. destruct Hz as [Hz|Hz]; [apply Sl; exact Hz|subst z; apply Nr].
+  - (* OR level *)
+    intros a IH Hw Hs. cbn [wf_oor sem_oor] in Hw, Hs. destruct (IH Hw Hs) as [E [N S]].
+    cbn [sv_oor mc_oor_list one_or]. split; [exact E|]. split; [discriminate|].
+    intros z [Hz|[]]. subst z. split; apply one_or_shape; try reflexivity; intros z Hz; apply S; exact Hz.
+  - intros l IHl r IHr Hw Hs. cbn [wf_oor sem_oor] in Hw, Hs.
+    apply andb_true_iff in Hw, Hs. destruct Hw as [Hwl Hwr]. destruct Hs as [Hsl Hsr].
+    destruct (IHl Hwl Hsl) as [El [Nl Sl]]. destruct (IHr Hwr Hsr) as [Er [Nr Sr]].
+    cbn [sv_oor mc_oor_list]. split; [|split].
+    + apply (chain_step OpOr (mc_oor_list l)); try assumption. intros z Hz. apply Sl. exact Hz.
+    + intros H. apply app_eq_nil in H. destruct H; discriminate.
+    + intros z Hz. apply in_snoc in Hz. destruct Hz as [Hz|Hz]; [apply Sl; exact Hz|].
+      subst z. split; apply one_or_shape; try reflexivity; intros z Hz; apply Sr; exact Hz.
+  - (* FOLLOWEDBY level *)
+    intros a IH Hw Hs. cbn [wf_fb sem_fb] in Hw, Hs. destruct (IH Hw Hs) as [E [N S]].
+    cbn [sv_fb mc_fb_list one_or]. split; [exact E|]. split; [discriminate|].
+    intros z [Hz|[]]. subst z. apply one_or_shape; [reflexivity|]. intros z Hz. apply S. exact Hz.
+  - intros l IHl r IHr Hw Hs. cbn [wf_fb sem_fb] in Hw, Hs.
+    apply andb_true_iff in Hw, Hs. destruct Hw as [Hwl Hwr]. destruct Hs as [Hsl Hsr].
+    destruct (IHl Hwl Hsl) as [El [Nl Sl]]. destruct (IHr Hwr Hsr) as [Er [Nr Sr]].
+    cbn [sv_fb mc_fb_list]. split; [|split].
+    + apply (chain_step OpFb (mc_fb_list l)); try assumption.
+    + intros H. apply app_eq_nil in H. destruct H; discriminate.
+    + intros z Hz. apply in_snoc in Hz. destruct Hz as [Hz|Hz]; [apply Sl; exact Hz|].
+      subst z. apply one_or_shape; [reflexivity|]. intros z Hz. apply Sr. exact Hz.
+Qed.
+
+(* ------------------------------------------------------------------ *)
+(** * visit_preserves *)
+
+Theorem visit_preserves_lemma : forall c : pattern, wf c = true -> sem c = true ->
+  exists a, visit repaired c = Ok a /\ meaning_ast a = meaning_cst c.
+Proof.
+  intros c Hw Hs. exists (sv_fb c). split; [apply visit_sv; assumption|].
+  unfold meaning_ast, meaning_cst. apply (proj2 (proj2 (proj2 obs_meaning)) c Hw Hs).
 Qed.
